@@ -147,6 +147,9 @@ def process_fits(run, results):
         job = res["job"]
         run.count(("fit", job["family"], job["profile"], job["seed"]), nontrivial="crash" not in res)
         run.dist("fits: family/profile", "%s/%s" % (job["family"], job["profile"]))
+        if res.get("zone"):
+            run.dist("fits: baseline tzinfo", "fixed offset" if res["zone"].startswith("fixed:") else
+                     "dateutil tzfile" if res["zone"].startswith("dateutil:") else "IANA name (zoneinfo)")
         if "crash" in res:
             run.dist("fits: outcome", "fit failed: " + res["crash"].split(":")[0])
             run.log("fit job failed (not a C01 observation): %s %s" % (job, res["crash"]))
@@ -192,7 +195,7 @@ def process_daily_states(run, results):
         terms.append("(%s, %s, %s)" % (cls, c01lib.coq_daily_state(st, shared), c01lib.coq_doc_with_shared(doc, shared)))
         kept.append(res)
         doc_cases.append({"k": 10**6 + len(doc_cases), "profile": job["profile"], "cls": job["family"], "doc": doc,
-                          "tamper": "real-fit", "corner": False})
+                          "tamper": "real-fit", "corner": False, "zone": res.get("zone")})
     if not terms:
         return []
     bad = run.coq_cases("state_daily", IMPORTS_D, shared.prelude(), terms, "check_state", shard=20)
@@ -230,6 +233,14 @@ def fit_jobs(run):
     # longest first
     order = {"caltrack": 0, "daily": 1, "hourly": 2, "billing": 3}
     jobs = [{"family": f, "profile": p, "seed": r.randrange(2**31)} for f, p in plan]
+    if run.quick():
+        # baselines whose tzinfo is a fixed offset / a dateutil tzfile: equal tzinfo objects with different str() exist
+        special = {("daily", "legacy"): "fixed:-360", ("daily", "legacy-dev"): "dateutil:US/Central",
+                   ("billing", "billing"): "fixed:-360", ("hourly", "default"): "dateutil:US/Central",
+                   ("hourly", "no-edge-bins"): "fixed:-360"}
+        for j in jobs:
+            if (j["family"], j["profile"]) in special:
+                j["tz"] = special[(j["family"], j["profile"])]
     jobs.sort(key=lambda j: (order[j["family"]], not j["profile"].startswith("current")))
     return jobs
 
